@@ -1,10 +1,37 @@
-(** C05 — placeholder until SimpProofs lands in this round. *)
+(** C05 — simplification preserves meaning and terminates.  Property theorems only.
+    Proved (fragment 1 of the well-formedness predicate SimpProofs.wf: constants, identifiers, memory cells with any well-formed
+    address, conditionals, the n-ary operators + * ^ & | on operands of one width, unary and binary minus): for EVERY such tree,
+    every fuel and every result the model Simp.simp returns, the result is again well formed, has the same width, and has the
+    same value under every valuation of identifiers, every memory and every interpretation of uninterpreted operators.
+    This covers flattening, canonical sorting, constant folding through the fixed-width integer classes, A op 0, the
+    singleton rule, duplicate / cancelling-pair removal, all minus rules, the conditional rules, the bottom-up traversal and
+    the fixpoint loop.  Termination: Simp.simp is total by construction (explicit fuel); OutOfFuel is a distinct result that
+    the correspondence never observes on the generated trees (fuel 64).
+    NOT yet proved: slices, concatenations (merge_sliceto_slice), shifts / rotates / == / parity rules — for those the property is
+    decided by the exact-tree correspondence with expression_helper.py and the exhaustive valuation search (harness/p_c05.py). *)
 From Coq Require Import ZArith List Bool String.
-From Mx Require Import Expr Simp.
+From Mx Require Import Expr Simp SimpProofs.
 Import ListNotations.
 Open Scope Z_scope.
-Example C05_shift_fold_example : simp 10 (EOp ">>" [EInt false 32 16; EInt false 32 1]) = Ok (EInt false 32 8).
-Proof. vm_compute. reflexivity. Qed.
-Theorem C05_shift_fold : simp 10 (EOp "<<" [EInt false 32 1; EInt false 32 4]) = Ok (EInt false 32 16).
-Proof. vm_compute. reflexivity. Qed.
-Print Assumptions C05_shift_fold.
+
+Theorem C05_simp_sound_fragment1 : forall fuel e e', wf e = true -> simp fuel e = Ok e' ->
+  wf e' = true /\ size e' = size e /\ forall rho mu iota, eval rho mu iota e' = eval rho mu iota e.
+Proof. exact simp_sound_frag1. Qed.
+Print Assumptions C05_simp_sound_fragment1.
+
+(** the single rewriting step, on its own *)
+Theorem C05_one_step_sound : forall rho mu iota e e', wf e = true -> simp1 e = Ok e' ->
+  wf e' = true /\ size e' = size e /\ eval rho mu iota e' = eval rho mu iota e.
+Proof. exact simp1_good. Qed.
+Print Assumptions C05_one_step_sound.
+
+(** non-vacuity: a well-formed tree on which flattening, sorting, folding, zero-drop, cancellation and the minus rules all fire *)
+Example C05_nonvacuous :
+  let a := EId "a" 32 false true in let b := EId "b" 32 false true in
+  let e := EOp "+" [EOp "+" [a; EInt false 32 3]; EOp "-" [EOp "-" [b]]; EInt false 32 4294967293; EOp "^" [b; b]; EOp "-" [a]] in
+  wf e = true /\ simp 20 e = Ok b.
+Proof. vm_compute. split; reflexivity. Qed.
+(** the shift constant folds repaired in /repo (fix: bca1ceb) stay instances, outside fragment 1 *)
+Example C05_shift_fold : simp 10 (EOp ">>" [EInt false 32 16; EInt false 32 1]) = Ok (EInt false 32 8) /\
+                         simp 10 (EOp "<<" [EInt false 32 1; EInt false 32 4]) = Ok (EInt false 32 16).
+Proof. vm_compute. split; reflexivity. Qed.
